@@ -566,8 +566,11 @@ def drive_synth(c):
     return segs, exc
 
 
-def oracle_segment(res, keyp, desc, conds, seg, count_tag):
-    """the property on one `solve` call: rows k0..m of the pData history, condition latches before / after"""
+def oracle_segment(res, keyp, desc, conds, seg, count_tag, coupled_stop=False):
+    """the property on one `solve` call: rows k0..m of the pData history, condition latches before / after.
+    coupled_stop: the model was solved through a Coupler and ANOTHER coupled model requested the stop at the last row
+    (decided by oracle_coupled from that model's own history) - only then may the run end before the end time without
+    this model's rule holding"""
     H, k0, m, tf = seg['H'], seg['k0'], seg['m'], seg['tf']
     act = conds[:seg['active']]
     modes = [k['mode'] == 'or' for k in act]
@@ -594,6 +597,8 @@ def oracle_segment(res, keyp, desc, conds, seg, count_tag):
         if t[k0] < tf:
             res.violate(keyp + 'no-step-taken', 'solve took no step although the end time was not reached', desc); return
         ended = 'time'
+    if ended == 'time' and coupled_stop and m > k0:
+        ended = 'other-coupled-model'
     if ended == 'time' and not (t[m] >= tf):
         res.violate(keyp + 'stopped-without-condition', 'the run ended at t = %r before the end time %r although the and/or combination does not hold' % (float(t[m]), tf),
                     desc, dict(satisfied=sats, modes=modes), 'run to the end time'); return
@@ -1533,6 +1538,423 @@ def part_hist(ctx, res, N, oracle_only, real=()):
         seen.add(c['kind'])
 
 
+# ---------------------------------------------------------------- (c) coupled runs: several models through kawin.GenericModel.Coupler
+# The condition-carrying model(s) (scripted SynthModel / real Al-Zr model) are solved TOGETHER with 1-2 other models
+# (GrainGrowthModel, a trivial GenericModel) by Coupler([...]).solve, the carrier at every position of the list.
+# Oracle (independent of the model and of the flags the code passes around): from each carrier's own recorded pData
+# history and its own conditions, the steps at which that model's and/or rule holds = the steps at which it REQUESTS the
+# stop; the coupled run must end at the first step at which ANY coupled model requests it, otherwise at the end time,
+# and every coupled model's clock must be the coupler's clock.
+_COUPLED = {}
+
+
+def trivial_class():
+    if 'cls' in _COUPLED:
+        return _COUPLED['cls']
+    vlib.use_repo()
+    from kawin.GenericModel import GenericModel
+
+    class TrivialModel(GenericModel):
+        """dx/dt = rate with a fixed proposed step; postProcess records and returns what the GenericModel default returns"""
+        def __init__(self, rate, dt):
+            super().__init__()
+            self.rate, self.dt = rate, dt
+            self.time, self.x = np.zeros(1), np.zeros(1)
+
+        def getCurrentX(self):
+            return self.time[-1], [np.array([self.x[-1]])]
+
+        def getdXdt(self, t, x):
+            return [np.array([self.rate])]
+
+        def getDt(self, dXdt):
+            return self.dt
+
+        def postProcess(self, time, x):
+            self.time = np.append(self.time, time)
+            self.x = np.append(self.x, np.ravel(x[0])[0])
+            return super().postProcess(time, x)
+
+    _COUPLED['cls'] = TrivialModel
+    return TrivialModel
+
+
+def grain_model(M):
+    vlib.use_repo()
+    from kawin.precipitation.coupling.GrainGrowth import GrainGrowthModel
+    g = GrainGrowthModel(cMin=1e-10, cMax=0.5e-5)
+    g.setGrainBoundaryMobility(M)
+    r0, sg = 1e-6, 0.2
+    g.LoadDistributionFunction(lambda R: np.exp(-np.log(R / r0) ** 2 / (2 * sg ** 2)) / R)
+    return g
+
+
+def pos_name(i, n):
+    return 'only' if n == 1 else 'first' if i == 0 else 'last' if i == n - 1 else 'middle'
+
+
+def pos_join(idx, n):
+    return '+'.join(pos_name(i, n) for i in idx) if idx else 'none'
+
+
+def carrier_script(r):
+    """one scripted condition-carrying model (same ingredients as synth_case; constructing a PrecipitateBase costs 33 ms per phase)"""
+    nP, nE = int(r.choice([1, 1, 1, 2, 2, 3])), int(r.integers(1, 3))
+    phases = [str(p) for p in r.permutation(PHASES)[:nP]]
+    elements = [str(e) for e in r.permutation(ELEMS)[:nE]]
+    L = int(r.choice([3, 6, 12, 25, 40]))
+    H, _ = gen_history(r, L, nP, nE)
+    H['time'] = H['time'] - H['time'][0]
+    nc = int(r.choice([0, 1, 1, 1, 2, 2, 3, 4]))
+    mk = str(r.choice(['mixed', 'mixed', 'all-or', 'all-and']))
+    conds = []
+    for _ in range(nc):
+        q = int(r.integers(0, 6))
+        names = elements if q == 5 else phases
+        sel = None if r.random() < 0.3 else names[int(r.integers(0, len(names)))]
+        col = col_of(names, sel)
+        d = pick_dir(r, H[QUANT[q]][:, col])
+        value, tk = pick_threshold(r, H[QUANT[q]][:, col], d)
+        if tk in ('above', 'below', 'first') and r.random() < 0.5:      # more runs that really stop
+            value, tk = pick_threshold(r, H[QUANT[q]][:, col], d)
+        mode = 'or' if mk == 'all-or' else 'and' if mk == 'all-and' else ('or' if r.random() < 0.5 else 'and')
+        conds.append(dict(q=q, d=d, sel=sel, col=col, value=float(value), mode=mode, tk=tk))
+    return dict(nP=nP, nE=nE, phases=phases, elements=elements, L=L, H=H, conds=conds, mk=mk)
+
+
+def coupled_case(s):
+    r = np.random.default_rng([s, 9])
+    n = int(r.choice([2, 2, 3, 3, 3]))
+    ncar = 2 if r.random() < 0.25 else 1
+    slots = [str(r.choice(['grain', 'trivial'])) for _ in range(n)]
+    carpos = sorted(int(v) for v in r.permutation(n)[:ncar])
+    carriers = {}
+    for p_ in carpos:
+        slots[p_] = 'prec'
+        carriers[p_] = carrier_script(r)
+    if ncar == 2 and all(len(cr['conds']) == 0 for cr in carriers.values()):
+        carriers[carpos[0]] = carrier_script(r)
+    span = float(min(cr['H']['time'][-1] for cr in carriers.values()))
+    f1 = float(r.choice([1.0, 1.0, r.uniform(0.2, 1.0)]))
+    split = r.random() < 0.2
+    Lmax = max(cr['L'] for cr in carriers.values())
+    return dict(kind='coupled', s=s, slots=slots, carriers=carriers, sim=[span * f1 * 0.5, span * f1 * 0.5] if split else [span * f1],
+                trivial_dt=float(r.choice([1e30, 1e30, span / int(r.integers(2, 2 * Lmax + 2))])),
+                grain_M=float(r.choice([1e-17, 1e-17, 1e-15])), rk4=bool(r.random() < 0.3), subclass=bool(r.random() < 0.2))
+
+
+COUPLED_ORDERS = {'first-of-2': ['prec', 'grain'], 'last-of-2': ['grain', 'prec'], 'first-of-3': ['prec', 'trivial', 'grain'],
+                  'middle-of-3': ['grain', 'prec', 'trivial'], 'last-of-3': ['trivial', 'grain', 'prec'],
+                  'first+scripted': ['prec', 'scripted', 'grain'], 'scripted+last': ['scripted', 'grain', 'prec']}
+
+
+def coupled_real_case(s, order, variant):
+    """real Al-Zr model (450 C, dtScale 0.05: f = 6e-7 at 300 s, 4.5e-5 at 500 s, 1.7e-4 at 600 s; R = 5.9e-10 / 7.8e-10 / 8.9e-10;
+    density 5e20 / 1.5e22 / 3.8e22; x = 3.99985e-3 / 3.989e-3 / 3.958e-3) + GrainGrowthModel (+ trivial / scripted model)"""
+    r = np.random.default_rng([s, 10])
+    lg = lambda a, b: float(10 ** r.uniform(a, b))
+    menu = {'vf>': lambda: dict(q=0, d='G', sel=('AL3ZR' if r.random() < 0.6 else None), col=0, value=lg(-6.5, -4.4), tk='vf>'),
+            'R>': lambda: dict(q=1, d='G', sel=None, col=0, value=float(r.uniform(5.6e-10, 8.4e-10)), tk='R>'),
+            'dens>': lambda: dict(q=4, d='G', sel='AL3ZR', col=0, value=lg(19.6, 22.4), tk='dens>'),
+            'x<': lambda: dict(q=5, d='L', sel='ZR', col=0, value=float(r.uniform(3.96e-3, 3.9998e-3)), tk='x<'),
+            'never': lambda: dict(q=0, d='G', sel=None, col=0, value=0.5, tk='vf>never')}
+    reach = ['vf>', 'R>', 'dens>', 'x<']
+    if variant == 'or':
+        keys = [str(k) for k in r.choice(reach, size=int(r.integers(1, 3)), replace=False)]
+        conds = [dict(menu[k](), mode='or') for k in keys] + ([dict(menu['never'](), mode='and')] if r.random() < 0.5 else [])
+        sim = 650.0
+    elif variant == 'and':
+        keys = [str(k) for k in r.choice(reach, size=int(r.integers(2, 4)), replace=False)]
+        conds = [dict(menu[k](), mode='and') for k in keys] + ([dict(menu['never'](), mode='or')] if r.random() < 0.5 else [])
+        sim = 650.0
+    else:      # never: an unreachable and-condition next to a reachable one, unreachable or-condition
+        conds = [dict(menu['never'](), mode='and'), dict(menu[str(r.choice(reach))](), mode='and'), dict(menu['never'](), mode='or')]
+        sim = float(r.choice([150.0, 250.0]))
+    c = dict(kind='coupled-real', s=s, order=order, variant=variant, slots=list(COUPLED_ORDERS[order]), sim=[sim], trivial_dt=1e30, grain_M=1e-17,
+             rk4=False, subclass=bool(order == 'first-of-2' and r.random() < 0.5), carriers={})
+    for i, k in enumerate(c['slots']):
+        if k == 'prec':
+            c['carriers'][i] = dict(real=True, nP=1, nE=1, phases=['AL3ZR'], elements=['ZR'], conds=conds, L=None)
+        elif k == 'scripted':      # a second condition-carrying model in the same coupler, scripted on the time scale of the real run
+            cr = carrier_script(r)
+            cr['H']['time'] = cr['H']['time'] * (sim * float(r.uniform(0.6, 1.5)) / max(float(cr['H']['time'][-1]), 1e-300))
+            c['carriers'][i] = cr
+            c['slots'][i] = 'prec'
+    return c
+
+
+def coupled_desc(c):
+    d = dict(kind=c['kind'], s=c['s'], models=[('condition-carrying' if k == 'prec' else k) for k in c['slots']], simTimes=c['sim'],
+             iterator='RK4' if c['rk4'] else 'Euler', coupler='subclass of Coupler' if c['subclass'] else 'Coupler',
+             carriers={pos_name(i, len(c['slots'])): dict(model='Al-0.4Zr 723.15 K' if cr.get('real') else 'scripted %d rows' % cr['L'],
+                       conditions=[dict(condition=CLASSES[k['q']], inequality=k['d'], value=k['value'], selector=k['sel'], mode=k['mode']) for k in cr['conds']])
+                       for i, cr in c['carriers'].items()})
+    if c['kind'] == 'coupled-real':
+        d['order'] = c['order']; d['variant'] = c['variant']
+    return d
+
+
+def _tap(model, log):
+    """records what this model's postProcess returns as its stop flag (the call itself is the real method)"""
+    orig = model.postProcess
+
+    def post(time, x):
+        out = orig(time, x)
+        log.append(bool(out[1]))
+        return out
+    model.postProcess = post
+
+
+def drive_coupled(c):
+    """Coupler([...]).solve once or twice on the real classes; per solve: one segment per carrier (as drive_synth),
+    the clocks of all models, and the stop flags every postProcess returned on every step"""
+    import warnings
+    segs, exc = [], None
+    try:
+      with warnings.catch_warnings(), contextlib.redirect_stdout(io.StringIO()), np.errstate(all='ignore'):
+        warnings.simplefilter('ignore')
+        from kawin.solver import SolverType
+        from kawin.GenericModel import Coupler
+        n = len(c['slots'])
+        models, objs = [], {}
+        for i, k in enumerate(c['slots']):
+            if k == 'prec':
+                cr = c['carriers'][i]
+                if cr.get('real'):
+                    M = real_model(); M.setConstraints(dtScale=0.05)
+                else:
+                    M = synth_class()(cr['phases'], cr['elements'], lambda T, cr=cr: cr['H'])
+                objs[i] = [make_cond(q['q'], q['d'], q['value'], q['sel']) for q in cr['conds']]
+                for o, q in zip(objs[i], cr['conds']):
+                    M.addStoppingCondition(o, q['mode'])
+                models.append(M)
+            elif k == 'grain':
+                models.append(grain_model(c['grain_M']))
+            else:
+                models.append(trivial_class()(1.0, c['trivial_dt']))
+        if c['subclass']:
+            class CustomCoupledModel(Coupler):          # as in examples/08_Model_Coupling: overrides getdXdt only
+                def getdXdt(self, t, x):
+                    return super().getdXdt(t, x)
+            cp = CustomCoupledModel(models)
+        else:
+            cp = Coupler(models)
+        logs = [[] for _ in models]; clog = []
+        for M, lg in zip(models, logs):
+            _tap(M, lg)
+        _tap(cp, clog)
+        clock_of = lambda i: (np.array(models[i].pData.time[:models[i].pData.n + 1], dtype=float) if c['slots'][i] == 'prec' else np.array(models[i].time, dtype=float))
+        real = c['kind'] == 'coupled-real'
+        for sim in c['sim']:
+            k0 = len(cp.time) - 1
+            pre = {i: [(bool(o.isSatisfied()), float(o.satisfiedTime())) for o in objs[i]] for i in objs}
+            if real:
+                cp.solve(sim, solverType=SolverType.EXPLICITEULER, verbose=False)
+            else:
+                cp.solve(sim, solverType=SolverType.RK4 if c['rk4'] else SolverType.EXPLICITEULER, minDtFrac=1e-14, maxDtFrac=1)
+            m = len(cp.time) - 1
+            seg = dict(k0=k0, m=m, tf=float(cp.finalTime), clock=np.array(cp.time, dtype=float), clocks=[clock_of(i) for i in range(n)],
+                       flags=[[lg[j] if j < len(lg) else None for lg in logs] for j in range(k0, len(clog))], combined=list(clog[k0:]), car={})
+            for i in objs:
+                M = models[i]
+                seg['car'][i] = dict(k0=k0, tf=float(M.finalTime), active=len(objs[i]), pre=pre[i], m=int(M.pData.n),
+                                     post=[(bool(o.isSatisfied()), float(o.satisfiedTime())) for o in objs[i]], H=pdata_hist(M.pData))
+            segs.append(seg)
+    except Exception as e:
+        exc = excinfo(e)
+    return segs, exc
+
+
+def requests_from_history(H, k0, m, conds, pre):
+    """independent of the implementation: the steps k0+1..m after which this model's and/or rule holds (latched), from its own rows"""
+    modes = [k['mode'] == 'or' for k in conds]
+    xs = [H[QUANT[k['q']]][:, k['col']] for k in conds]
+    sats = [p[0] for p in pre]
+    out = {}
+    for j in range(k0 + 1, m + 1):
+        for i, k in enumerate(conds):
+            if not sats[i] and j < len(xs[i]) and beyond(k['d'], k['value'], xs[i][j]):
+                sats[i] = True
+        out[j] = stop_rule(modes, sats)
+    return out
+
+
+def oracle_coupled(res, c, segs):
+    desc = coupled_desc(c)
+    n = len(c['slots'])
+    carpos = sorted(c['carriers'])
+    tag = c['kind']
+    for si, seg in enumerate(segs):
+        d2 = dict(desc, solve=si)
+        k0, m, tf, clock = seg['k0'], seg['m'], seg['tf'], seg['clock']
+        # every coupled model is stepped with the coupler: same number of rows, same clock (so all end at the stop time)
+        for i, ck in enumerate(seg['clocks']):
+            if len(ck) != len(clock):
+                res.violate('coupled:%s:rows-differ' % pos_name(i, n), 'model %d (%s) has %d rows after the coupled solve, the coupler %d' % (i, c['slots'][i], len(ck) - 1, m), d2, len(ck) - 1, m)
+                return False
+            if not np.array_equal(ck, clock):
+                j = int(np.nonzero(ck != clock)[0][0])
+                res.violate('coupled:%s:clock-differs' % pos_name(i, n), 'the clock of model %d (%s) differs from the coupler\'s at row %d (end of the run: %r vs %r)' % (i, c['slots'][i], j, float(ck[-1]), float(clock[-1])),
+                            d2, float(ck[j]), float(clock[j]))
+                return False
+        for i in carpos:
+            if seg['car'][i]['tf'] != tf:
+                res.violate('coupled:%s:end-time-differs' % pos_name(i, n), 'finalTime of a coupled model differs from the coupler\'s', d2, seg['car'][i]['tf'], tf)
+                return False
+        req = {i: requests_from_history(seg['car'][i]['H'], k0, m, c['carriers'][i]['conds'][:seg['car'][i]['active']], seg['car'][i]['pre']) for i in carpos}
+        ended = None
+        for j in range(k0 + 1, m + 1):
+            if not (clock[j - 1] < tf):
+                res.violate('coupled:step-after-end-time', 'a coupled step was taken from row %d although its time is not below the end time' % (j - 1), d2, float(clock[j - 1]), tf)
+                return False
+            who = [i for i in carpos if req[i][j]]
+            if who and j < m:
+                res.violate('coupled:%s:ran-past-stop' % pos_join(who, n),
+                            'coupled model(s) %s of %d (%s in the list) request the stop after step %d (own and/or rule holds on own history, t = %r) but the coupled run continued to row %d (t = %r, end time %r)'
+                            % (who, n, pos_join(who, n), j, float(clock[j]), m, float(clock[m]), tf), d2, dict(step=j, requesting=who, last_row=m), 'coupled run ends at step %d' % j)
+                return False
+            if j == m:
+                ended = ('stop:' + pos_join(who, n)) if who else 'time'
+        if m == k0:
+            if clock[k0] < tf:
+                res.violate('coupled:no-step-taken', 'the coupled solve took no step although the end time was not reached', d2)
+                return False
+            ended = 'time'
+        if ended == 'time' and not (clock[m] >= tf):
+            res.violate('coupled:%s:stopped-without-condition' % pos_join(carpos, n),
+                        'the coupled run ended at t = %r before the end time %r although no coupled model requests the stop (carriers at %s)' % (float(clock[m]), tf, pos_join(carpos, n)),
+                        d2, dict(last_row=m, t=float(clock[m])), 'run to the end time')
+            return False
+        res.count('%s:ended-by-%s' % (tag, ended))
+        # what the code passed around on every step: each model's returned flag against its history, the coupler's against the models'
+        for jj, (fl, cb) in enumerate(zip(seg['flags'], seg['combined'])):
+            j = k0 + 1 + jj
+            for i in range(n):
+                want = req[i][j] if i in req else False
+                if fl[i] is None or fl[i] != want:
+                    res.violate('coupled:%s:model-flag-differs-from-history' % pos_name(i, n), 'step %d: postProcess of model %d (%s) returned stop = %r; by its own history and conditions: %r' % (j, i, c['slots'][i], fl[i], want),
+                                d2, fl[i], want)
+                    return False
+            if cb != any(fl):
+                who = [i for i in range(n) if fl[i]]
+                res.violate(('coupled:%s:stop-request-dropped' % pos_join(who, n)) if any(fl) else 'coupled:stop-flag-without-request',
+                            'step %d: the coupled models returned stop flags %r but Coupler.postProcess returned %r' % (j, fl, cb), d2, cb, any(fl))
+                return False
+        if len(seg['combined']) != m - k0:
+            res.violate('coupled:postprocess-calls', 'Coupler.postProcess was called %d times for %d steps' % (len(seg['combined']), m - k0), d2, len(seg['combined']), m - k0)
+            return False
+        # each carrier on its own: latches and reported times (and its own rule) on its own history
+        nv = len(res.violations)
+        for i in carpos:
+            others = any(req[i2][m] for i2 in carpos if i2 != i) if m > k0 else False
+            oracle_segment(res, 'coupled:%s:' % pos_name(i, n), dict(d2, carrier=i), c['carriers'][i]['conds'], seg['car'][i], tag + ':' + pos_name(i, n), coupled_stop=others)
+        if len(res.violations) > nv:
+            return False
+    return True
+
+
+def coupled_line(c, seg):
+    n = len(c['slots'])
+    toks = ['sc.coupled', enc_list(seg['clock']), f2b(seg['tf']), str(len(seg['clock']) + 5), str(seg['k0']), str(n)]
+    for i, k in enumerate(c['slots']):
+        if k != 'prec':
+            toks.append('O'); continue
+        cr, sg = c['carriers'][i], seg['car'][i]
+        ents = ' '.join('%s %s %s' % (enc_cond(q['q'], q['d'], q['value'], q['sel']), 'T' if q['mode'] == 'or' else 'F', enc_latch(*p_))
+                        for q, p_ in zip(cr['conds'][:sg['active']], sg['pre']))
+        toks.append('P %s %s %d %s' % (enc_hist(cr['nP'], cr['nE'], sg['H']), enc_names(cr['phases'], cr['elements']), sg['active'], ents))
+    return ' '.join(t for t in toks if t != '')
+
+
+def compare_coupled(res, c, seg, ln, si):
+    desc = dict(coupled_desc(c), solve=si)
+    n = len(c['slots'])
+    t = Toks(ln)
+    if not t.ok or t.t[1] == 'raise':
+        res.disagree('sc.coupled model error', desc, 'ok', ln[:80]); return
+    m = t.nat(); stopped = t.bool(); ns = t.nat()
+    steps = [([t.bool() for _ in range(n)], t.bool()) for _ in range(ns)]
+    lats = [[(t.bool(), t.flt()) for _ in range(t.nat())] for _ in range(n)]
+    if m != seg['m']:
+        res.disagree('last row of a coupled run', desc, seg['m'], m); return
+    for jj, ((mf, mc), fl, cb) in enumerate(zip(steps, seg['flags'], seg['combined'])):
+        if list(mf) != list(fl):
+            res.disagree('stop flags returned by the coupled models on step %d' % (seg['k0'] + 1 + jj), desc, fl, mf); return
+        if mc != cb:
+            res.disagree('stop flag of Coupler.postProcess on step %d' % (seg['k0'] + 1 + jj), desc, cb, mc); return
+    if len(steps) != len(seg['combined']):
+        res.disagree('number of coupled steps', desc, len(seg['combined']), len(steps)); return
+    for i in range(n):
+        want = seg['car'][i]['post'] if i in seg['car'] else []
+        if len(want) != len(lats[i]) or any(a[0] != b[0] or not close(a[1], b[1], 1e-12) for a, b in zip(want, lats[i])):
+            res.disagree('latches of coupled model %d after the coupled solve' % i, desc, want, lats[i]); return
+    if bool(seg['clock'][seg['m']] < seg['tf']) and not stopped:       # (a stop on the step that also reaches the end time is not visible in the clock)
+        res.disagree('coupled run ended before the end time but the model did not stop', desc, True, stopped)
+    res.count('coupled:steps-compared', len(steps))
+
+
+def post_coupled(res, c, segs, exc, model, lis, first):
+    desc = coupled_desc(c)
+    n = len(c['slots'])
+    tag = c['kind']
+    res.case((c['kind'], c['s'], c.get('order'), c.get('variant')), nontrivial=exc is None and any(len(cr['conds']) > 0 for cr in c['carriers'].values()))
+    res.count('%s:models:%d' % (tag, n)); res.count('%s:carriers-at:%s' % (tag, pos_join(sorted(c['carriers']), n)))
+    res.count('%s:solves:%d' % (tag, len(c['sim']))); res.count('%s:iterator:%s' % (tag, 'rk4' if c['rk4'] else 'euler'))
+    for k in c['slots']:
+        if k != 'prec':
+            res.count('%s:other-model:%s' % (tag, k))
+    if tag == 'coupled-real':
+        res.count('coupled-real:steps', sum(sg['m'] - sg['k0'] for sg in segs))
+    if first:
+        res.sample(dict(desc, runs=[dict(k0=sg['k0'], m=sg['m'], tf=sg['tf'], t_end=float(sg['clock'][-1])) for sg in segs]), cap=8)
+    if exc is not None:
+        report_exc(res, 'coupled-solve-with-conditions', desc, exc)
+    ok = oracle_coupled(res, c, segs)
+    if model is not None:
+        for si, (seg, li) in enumerate(zip(segs, lis)):
+            if li is not None:
+                compare_coupled(res, c, seg, model[li], si)
+    res.traces += len(segs)
+
+
+def part_coupled(ctx, res, N, oracle_only, real=()):
+    lines, recs = [], []
+    jobs = [('coupled', None, None)] * N + [('coupled-real', o, v) for o, v in real]
+    for kind, order, variant in jobs:
+        s = ctx.rng.getrandbits(40)
+        d0 = dict(kind=kind, s=s, order=order, variant=variant)
+        ok, c = guard(res, 'coupled-generate', d0, (lambda: coupled_case(s) if kind == 'coupled' else coupled_real_case(s, order, variant)))
+        if not ok:
+            continue
+        ok, r = guard(res, 'coupled-solve-with-conditions', coupled_desc(c), drive_coupled, c)
+        if not ok:
+            continue
+        segs, exc = r
+        lis = []
+        for seg in segs:
+            ok, ln = guard(res, 'coupled-encode', coupled_desc(c), coupled_line, c, seg)
+            lis.append(len(lines) if ok else None)
+            if ok:
+                lines.append(ln)
+        recs.append((c, segs, exc, lis))
+    model = driver(ctx, res, lines, oracle_only)
+    seen = set()
+    for c, segs, exc, lis in recs:
+        guard(res, 'coupled-evaluate', coupled_desc(c), post_coupled, res, c, segs, exc, model, lis, c['kind'] not in seen)
+        seen.add(c['kind'])
+
+
+def coupled_real_jobs(ctx):
+    """quick: one run with the real model NOT last (as examples/08: Coupler([precModel, grainModel]), or first / middle of three) and one at a random
+    position; thorough: every order, every variant"""
+    r = np.random.default_rng(ctx.rng.getrandbits(40))
+    if ctx.thorough:
+        return [(o, v) for o in COUPLED_ORDERS for v in ('or', 'and')] + [('first-of-2', 'never'), ('middle-of-3', 'never'), ('last-of-3', 'never')]
+    a = str(r.choice(['first-of-2', 'first-of-2', 'first-of-3', 'middle-of-3', 'first+scripted']))
+    b = str(r.choice(['last-of-2', 'last-of-3', 'middle-of-3', 'scripted+last', 'first-of-3']))
+    return [(a, str(r.choice(['or', 'or', 'and']))), (b, str(r.choice(['or', 'and', 'never'])))]
+
+
 # ---------------------------------------------------------------- combination alone (exhaustive small)
 _COMB = {}
 
@@ -1613,6 +2035,8 @@ def corr(ctx, oracle_only=False, scale=1):
         guard(res, 'part-ttp-real', {}, part_ttp_real, ctx, res, oracle_only)
     else:
         guard(res, 'part-real', {}, part_real, ctx, res, ['all-and', 'or-mix', 'any', 'never'], oracle_only)
+    # last, so that the cases of the parts above are the same as before this part existed
+    guard(res, 'part-coupled', {}, (lambda: part_coupled(ctx, res, ctx.n(90, 3000) * scale, oracle_only, coupled_real_jobs(ctx))))
     res.monitored = list(MONITORED)
     finish(res)
     return res
@@ -1658,6 +2082,12 @@ def replay(ctx, entry):
             if exc is not None:
                 report_exc(r, 'history-of-calls', hist_desc(c), exc)
             oracle_hist(r, c, rec, exc)
+        elif kind in ('coupled', 'coupled-real'):
+            c = coupled_case(s) if kind == 'coupled' else coupled_real_case(s, case['order'], case['variant'])
+            segs, exc = drive_coupled(c)
+            if exc is not None:
+                report_exc(r, 'coupled-solve-with-conditions', coupled_desc(c), exc)
+            oracle_coupled(r, c, segs)
         elif kind == 'comb':
             modes, sats = tuple(case['modes']), tuple(case['satisfied'])
             post_comb(r, modes, sats, comb_one(modes, sats), None, None)
